@@ -3,7 +3,7 @@ NEXT MCNext
 CONSTANTS
   HandlerStacks <- LStacks3
   AddShapes <- Shapes
-  MaxAdds = 1
+  MaxAdds = 2
   MaxCycles = 2
 INVARIANT StartupInOrder
 INVARIANT ShutdownReversed
